@@ -14,32 +14,32 @@ bool Parser_next(Parser *self) __CPROVER_requires(0) __CPROVER_assigns() __CPROV
 /* skipSpaces / skipWhitespaceOutsideText: everything skipped is white space */
 #define IORA_LOOP_Parser_skipSpaces_1 IORA_LC( XML_CUR_FRAME \
   __CPROVER_loop_invariant(XML_CUR_INV(self) && self->_cur >= __CPROVER_loop_entry(self->_cur)) \
-  __CPROVER_loop_invariant((GS >= __CPROVER_loop_entry(self->_cur) && GS < self->_cur) ==> XML_IS_SPACE(XML_AT(self, GS))) \
+  __CPROVER_loop_invariant((GS >= __CPROVER_loop_entry(self->_cur) && GS < self->_cur) ==> XML_IS_SPACE(GSC)) \
   __CPROVER_decreases(self->_input.n - self->_cur))
 #define IORA_LOOP_Parser_skipWhitespaceOutsideText_1 IORA_LOOP_Parser_skipSpaces_1
 
-/* matchString: loop 1 compares without moving the cursor, loop 2 moves it by exactly i */
+/* matchString: loop 1 compares without moving the cursor (witness index GK into the word), loop 2 moves the cursor by exactly i */
 #define IORA_LOOP_Parser_matchString_1 IORA_LC( __CPROVER_assigns(i) \
-  __CPROVER_loop_invariant(i <= XML_SLEN(s) && i <= self->_input.n - self->_cur && XML_PFX(self, self->_cur, s, i, XML_EQ)) \
-  __CPROVER_decreases(XML_SLEN(s) - i))
+  __CPROVER_loop_invariant(i <= GLEN && i <= self->_input.n - self->_cur && (GK < i ==> GIC == GWC)) \
+  __CPROVER_decreases(GLEN - i))
 #define IORA_LOOP_Parser_matchString_2 IORA_LC( __CPROVER_assigns(j, self->_cur, self->_line, self->_col) \
   __CPROVER_loop_invariant(j <= i && self->_cur == __CPROVER_loop_entry(self->_cur) + j && XML_CUR_INV(self)) \
   __CPROVER_decreases(i - j))
 #define IORA_LOOP_Parser_matchWordCaseInsensitive_1 IORA_LC( __CPROVER_assigns(i) \
-  __CPROVER_loop_invariant(i <= XML_SLEN(s) && i <= self->_input.n - pos && XML_PFX(self, pos, s, i, XML_CIEQ)) \
-  __CPROVER_decreases(XML_SLEN(s) - i))
+  __CPROVER_loop_invariant(i <= GLEN && i <= self->_input.n - pos && (GK < i ==> XML_CIEQ(GIC, GWC))) \
+  __CPROVER_decreases(GLEN - i))
 #define IORA_LOOP_Parser_matchWordCaseInsensitive_2 IORA_LOOP_Parser_matchString_2
 
 /* readName: the scanned run consists of name characters */
 #define IORA_LOOP_Parser_readName_1 IORA_LC( XML_CUR_FRAME \
   __CPROVER_loop_invariant(XML_CUR_INV(self) && self->_cur > start) \
-  __CPROVER_loop_invariant((GS >= start && GS < self->_cur) ==> XML_IS_NAMECHAR(XML_AT(self, GS))) \
+  __CPROVER_loop_invariant((GS >= start && GS < self->_cur) ==> XML_IS_NAMECHAR(GSC)) \
   __CPROVER_decreases(self->_input.n - self->_cur))
 
 /* readUntil: loop 1 searches (cursor fixed, no occurrence before pos), loop 2 moves the cursor behind the terminator */
 #define IORA_LOOP_Parser_readUntil_1 IORA_LC( __CPROVER_assigns(pos, *startOut, *lenOut, self->_cur, self->_line, self->_col) \
   __CPROVER_loop_invariant(XML_CUR_INV(self) && self->_cur == __CPROVER_loop_entry(self->_cur) && self->_cur <= pos && pos <= self->_input.n) \
-  __CPROVER_loop_invariant((GS >= self->_cur && GS < pos) ==> !XML_SEQ_AT(self, GS, endSeq)) \
+  __CPROVER_loop_invariant((GS >= self->_cur && GS < pos) ==> !XML_SEQ_GS(self, endSeq)) \
   __CPROVER_decreases(self->_input.n - pos))
 #define IORA_LOOP_Parser_readUntil_2 IORA_LC( XML_CUR_FRAME \
   __CPROVER_loop_invariant(XML_CUR_INV(self) && self->_cur >= __CPROVER_loop_entry(self->_cur) && self->_cur <= pos + endSeq.n) \
@@ -48,13 +48,13 @@ bool Parser_next(Parser *self) __CPROVER_requires(0) __CPROVER_assigns() __CPROV
 /* readQuotedValue: no closing quote inside the scanned range */
 #define IORA_LOOP_Parser_readQuotedValue_1 IORA_LC( XML_CUR_FRAME \
   __CPROVER_loop_invariant(XML_CUR_INV(self) && self->_cur >= start) \
-  __CPROVER_loop_invariant((GS >= start && GS < self->_cur) ==> XML_AT(self, GS) != quote) \
+  __CPROVER_loop_invariant((GS >= start && GS < self->_cur) ==> GSC != quote) \
   __CPROVER_decreases(self->_input.n - self->_cur))
 
 /* readText: span limit tested BEFORE each step; no '<' inside; at least one byte is taken (or the limit is 0) */
 #define IORA_LOOP_Parser_readText_1 IORA_LC( __CPROVER_assigns(self->_cur, self->_line, self->_col, self->_hasError, self->_error) \
   __CPROVER_loop_invariant(XML_CUR_INV(self) && self->_cur >= start && self->_cur - start <= self->_opt.maxTextSpan) \
   __CPROVER_loop_invariant(self->_hasError == __CPROVER_loop_entry(self->_hasError)) \
-  __CPROVER_loop_invariant(self->_cur == start ==> (self->_cur < self->_input.n && XML_AT(self, self->_cur) != (char)60)) \
-  __CPROVER_loop_invariant((GS >= start && GS < self->_cur) ==> XML_AT(self, GS) != (char)60) \
+  __CPROVER_loop_invariant(self->_cur == start ==> (self->_cur < self->_input.n && GOC != (char)60)) \
+  __CPROVER_loop_invariant((GS >= start && GS < self->_cur) ==> GSC != (char)60) \
   __CPROVER_decreases(self->_input.n - self->_cur))
